@@ -300,6 +300,36 @@ module TF = struct
        | None -> dead := true; print_string "ILLEGAL\n")) ops
 end
 
+(* ---------------------------------------------------------------- TBelt (timed conveyor belt stores, C12 / C13) *)
+module TB = struct
+  open TBelt
+  let case hdr ops =
+    (* hdr: CASE tbelt <cont|slot> <cap> <u> <D> <acc> *)
+    let i n = int_of_string (L.nth hdr n) in
+    let b = ref (binit (L.nth hdr 2 = "slot") (nat_of_int (i 3)) (z_of_int (i 4)) (z_of_int (i 5)) (i 6 = 1)) in
+    let dead = ref false in
+    L.iter (fun w ->
+      if !dead then print_string "ILLEGAL\n" else
+      let i n = int_of_string (L.nth w n) in
+      let o = match L.hd w with
+        | "IDLE" -> BIdle (z_of_int (i 1))
+        | "RSV" -> BRsv (i 1 = 1, i 2 = 1)
+        | "PUT" -> BPut (nat_of_int (i 1))
+        | "INT" -> BInt (nat_of_int (i 1))
+        | "RESUME" -> BResume
+        | "READY" -> BReady (nat_of_int (i 1))
+        | "GET" -> BGet (nat_of_int (i 1))
+        | x -> failwith ("tbelt op " ^ x) in
+      (match bstep !b o with
+       | Some (b', g) -> b := b';
+           Printf.printf "%s|%s|%s\n" (match o with BRsv _ -> if g then "grant" else "wait" | _ -> "ok")
+             (ints (L.map (fun x -> int_of_nat x.mid) b'.moving)) (ints (L.map int_of_nat b'.bready))
+       | None -> dead := true;
+           Printf.printf "ILLEGAL clock=%d moving=%s\n" (int_of_z !b.bclock)
+             (String.concat ";" (L.map (fun x -> Printf.sprintf "%d:due%d%s" (int_of_nat x.mid) (int_of_z x.since + int_of_z x.rem)
+                (match x.intr with Some _ -> "i" | None -> "")) !b.moving)))) ops
+end
+
 let () =
   let cur = ref None and ops = ref [] in
   let flush () =
@@ -315,6 +345,7 @@ let () =
           | "factory" -> F.case hdr (L.rev !ops)
           | "monitor" -> M.case hdr (L.rev !ops)
           | "tfleet" -> TF.case hdr (L.rev !ops)
+          | "tbelt" -> TB.case hdr (L.rev !ops)
           | m -> failwith ("model " ^ m));
          print_string "END\n");
     cur := None; ops := [] in
